@@ -90,7 +90,7 @@ theorem same_defaultErrorHandler (s : State) : Same s (defaultErrorHandler s).1 
 def AllGood (m fuel : Nat) : Prop :=
   (∀ s o b, Good m s (execOne fuel m s o b)) ∧
   (∀ s o b, Good m s (execBody fuel m s o b)) ∧
-  (∀ s o b, Good m s (execTail fuel m s o b)) ∧
+  (∀ s o b c, Good m s (execTail fuel m s o b c)) ∧
   (∀ s r o i n, Good m s (runBody fuel m s r o i n)) ∧
   (∀ s id, Good m s (callBuiltin fuel m s id)) ∧
   (∀ s v i l p, Good m s (forLoop fuel m s v i l p)) ∧
@@ -120,6 +120,17 @@ theorem allGood_zero (m : Nat) : AllGood m 0 := by
   · simp only [scanRun]; exact good_fuel m _
   · simp only [scanLoop]; exact good_fuel m _
 
+/-- a call that occupies one more level of the execution stack until it returns -/
+theorem good_level {m : Nat} {s s' : State} {r : Res} (hd : s.execDepth < execDepthLimit)
+    (g : Good m { s with execDepth := s.execDepth + 1, hiDepth := max s.hiDepth (s.execDepth + 1) } (s', r)) :
+    Good m s ({ s' with execDepth := s'.execDepth - 1 }, r) where
+  mono := g.mono
+  cap := g.cap
+  depth := by have := g.depth; simp only at this ⊢; omega
+  errs := g.errs
+  hiD := by have := g.hiD; simp only at this ⊢; omega
+  hiE := g.hiE
+
 theorem step_execOne {m n : Nat} (ih : AllGood m n) (s : State) (o : Obj) (b : Bool) :
     Good m s (execOne (n + 1) m s o b) := by
   simp only [execOne]
@@ -130,14 +141,7 @@ theorem step_execOne {m n : Nat} (ih : AllGood m n) (s : State) (o : Obj) (b : B
       have g := ih.2.1 { s with execDepth := s.execDepth + 1, hiDepth := max s.hiDepth (s.execDepth + 1) } o true
       generalize execBody n m { s with execDepth := s.execDepth + 1, hiDepth := max s.hiDepth (s.execDepth + 1) } o true = p at g
       obtain ⟨s', r⟩ := p
-      have hd' : s.execDepth + 1 ≤ execDepthLimit := by omega
-      exact {
-        mono := g.mono
-        cap := g.cap
-        depth := by have := g.depth; simp only at this ⊢; omega
-        errs := g.errs
-        hiD := by have := g.hiD; simp only at this ⊢; omega
-        hiE := g.hiE }
+      exact good_level (by omega) g
   · exact ih.2.1 s o false
 
 /-- the result code may be replaced when the sub-call did not hit the limit -/
@@ -169,7 +173,7 @@ theorem step_execBody {m n : Nat} (ih : AllGood m n) (s : State) (o : Obj) (b : 
       · exact good_of_same _ ⟨rfl, rfl, rfl, rfl, rfl⟩
       · split
         · exact good_of_same _ (same_pushS s o)
-        · exact ih.2.2.1 s o b
+        · exact ih.2.2.1 s o b b
 
 /-- entering `recurseTail`: the counter was incremented and the limit test passed -/
 theorem good_incr {m : Nat} {s : State} {p : State × Res} (hnl : ¬ (m > 0 ∧ s.numOps + 1 > m))
@@ -211,22 +215,89 @@ theorem good_handler {m : Nat} {s1 s3 : State} {r3 : Res} (name : ErrName)
     simp only at this ⊢
     omega
 
-theorem step_execTail {m n : Nat} (ih : AllGood m n) (s : State) (o : Obj) (b : Bool) :
-    Good m s (execTail (n + 1) m s o b) := by
+/-- the `Procedure` case of the `recurseTail` loop, for any state -/
+theorem good_proc_case {m n : Nat} (ih : AllGood m n) (s' : State) (ref off len : Nat) (b c : Bool) :
+    Good m s'
+      (if b = true then
+        if (len == 0) = true then okS s'
+        else
+          if (!c && decide (s'.execDepth ≥ execDepthLimit)) = true then psErrS s' "execstackoverflow"
+          else
+            leaveLevel c
+              (match runBody n m (enterLevel c s') ref off 0 (len - 1) with
+               | (s1, r) =>
+                 (match r with
+                  | .ok =>
+                    match (s1.vm.getObjs ref)[off + (len - 1)]? with
+                    | some last => execTail n m s1 last false true
+                    | none => (s1, .err (.panic "procedure view outside its store"))
+                  | _ => (s1, r) : State × Res))
+      else okS (pushS s' (Obj.proc ref off len))) := by
+  split
+  · split
+    · exact good_of_same _ (Same.rfl' s')
+    · split
+      · exact good_of_same _ (Same.rfl' s')
+      · rename_i hd
+        have body : ∀ s0 : State, Good m s0
+            (match runBody n m s0 ref off 0 (len - 1) with
+             | (s1, r) =>
+               (match r with
+                | .ok =>
+                  match (s1.vm.getObjs ref)[off + (len - 1)]? with
+                  | some last => execTail n m s1 last false true
+                  | none => (s1, .err (.panic "procedure view outside its store"))
+                | _ => (s1, r) : State × Res)) := by
+          intro s0
+          have g1 := ih.2.2.2.1 s0 ref off 0 (len - 1)
+          generalize runBody n m s0 ref off 0 (len - 1) = p1 at g1
+          obtain ⟨s1, r⟩ := p1
+          simp only
+          split
+          · split
+            · exact good_seq g1 (by simp) (ih.2.2.1 s1 _ false true)
+            · exact good_seq g1 (by simp) (good_of_same _ (Same.rfl' s1))
+          · exact g1
+        have g := body (enterLevel c s')
+        revert g
+        generalize (match runBody n m (enterLevel c s') ref off 0 (len - 1) with
+             | (s1, r) =>
+               (match r with
+                | .ok =>
+                  match (s1.vm.getObjs ref)[off + (len - 1)]? with
+                  | some last => execTail n m s1 last false true
+                  | none => (s1, .err (.panic "procedure view outside its store"))
+                | _ => (s1, r) : State × Res)) = p
+        intro g
+        obtain ⟨s2, r2⟩ := p
+        cases c
+        · -- called by name: one more level
+          simp only [Bool.not_false, Bool.true_and, decide_eq_true_eq] at hd
+          simp only [enterLevel, Bool.false_eq_true, if_false] at g
+          simp only [leaveLevel, Bool.false_eq_true, if_false]
+          exact good_level (by omega) g
+        · simp only [enterLevel, if_true] at g
+          simp only [leaveLevel, if_true]
+          exact g
+  · exact good_of_same _ (same_pushS s' _)
+
+theorem step_execTail {m n : Nat} (ih : AllGood m n) (s : State) (o : Obj) (b c : Bool) :
+    Good m s (execTail (n + 1) m s o b c) := by
   unfold execTail
   dsimp only
   split
   · exact good_limit s
   · rename_i hnl
     apply good_incr hnl
-    generalize hs' : ({ s with numOps := s.numOps + 1 } : State) = s'
     split
     · -- executable name
+      generalize ({ s with numOps := s.numOps + 1 } : State) = s'
       split
       · exact good_of_same _ (Same.rfl' s')
-      · exact ih.2.2.1 s' _ true
+      · exact ih.2.2.1 s' _ true c
     · -- builtin
       rename_i id
+      generalize ({ s with numOps := s.numOps + 1 } : State) = s'
       have g1 := ih.2.2.2.2.1 s' id
       generalize callBuiltin n m s' id = p1 at g1
       obtain ⟨s1, r⟩ := p1
@@ -251,20 +322,8 @@ theorem step_execTail {m n : Nat} (ih : AllGood m n) (s : State) (o : Obj) (b : 
       · exact g1
     · -- procedure
       rename_i ref off len
-      split
-      · split
-        · exact good_of_same _ (Same.rfl' s')
-        · have g1 := ih.2.2.2.1 s' ref off 0 (len - 1)
-          generalize runBody n m s' ref off 0 (len - 1) = p1 at g1
-          obtain ⟨s1, r⟩ := p1
-          simp only
-          split
-          · split
-            · exact good_seq g1 (by simp) (ih.2.2.1 s1 _ false)
-            · exact good_seq g1 (by simp) (good_of_same _ (Same.rfl' s1))
-          · exact g1
-      · exact good_of_same _ (same_pushS s' _)
-    · exact good_of_same _ (same_pushS s' _)
+      exact good_proc_case ih _ ref off len b c
+    · exact good_of_same _ (same_pushS _ _)
 
 theorem step_runBody {m n : Nat} (ih : AllGood m n) (s : State) (r o i t : Nat) :
     Good m s (runBody (n + 1) m s r o i t) := by
